@@ -92,6 +92,11 @@ func c13Pool(r *core.Rand) []c13Input {
 		extra = append(extra, c13Input{"text/x-cmd-files", []byte(fmt.Sprintf("payload %d for the command minifier: %s", i, strings.Repeat(string(rune('a'+i)), 50+i*37)))},
 			c13Input{"text/x-cmd-pipe", []byte(fmt.Sprintf("pipe payload %d %s", i, strings.Repeat("xyz", 10+i)))})
 	}
+	// documents that name their own default style language (short and long names): what one document declares is
+	// its own business, the generated documents before it and the hand-written ones after it must not notice
+	extra = append(extra, c13Input{"image/svg+xml", []byte(`<svg xmlns="http://www.w3.org/2000/svg" contentStyleType="text/xsl"><style>rect { fill : #ff0000 }</style><rect width="10px"/></svg>`)},
+		c13Input{"image/svg+xml", []byte(`<svg xmlns="http://www.w3.org/2000/svg" contentStyleType="text/x"><style>rect { fill : #ff0000 }</style><style type="text/css">path { fill : #00ff00 }</style></svg>`)},
+		c13Input{"image/svg+xml", []byte(`<svg xmlns="http://www.w3.org/2000/svg" contentStyleType="application/x-stylesheet-language"><style>circle { fill : #0000ff }</style></svg>`)})
 	pool = append(extra, pool...)
 	return pool
 }
